@@ -132,12 +132,24 @@ Lemma sublist_map {A B} (f : A -> B) l1 l2 : sublist l1 l2 -> sublist (map f l1)
 Proof. induction 1; cbn [map]; [apply sl_nil|apply sl_skip|apply sl_keep]; auto. Qed.
 
 (* ---------------------------------------------------------------------------------------------- *)
+(* value equality is an equivalence relation on the carrier `ok` *)
+Definition equiv_on (ok : pv -> Prop) : Prop :=
+  (forall a, ok a -> veq a a = true) /\
+  (forall a b, ok a -> ok b -> veq a b = true -> veq b a = true) /\
+  (forall a b c, ok a -> ok b -> ok c -> veq a b = true -> veq b c = true -> veq a c = true).
+
 Section Equiv.
-  (* a carrier on which value equality is an equivalence relation *)
   Variable ok : pv -> Prop.
-  Hypothesis ok_refl : forall a, ok a -> veq a a = true.
-  Hypothesis ok_sym : forall a b, ok a -> ok b -> veq a b = true -> veq b a = true.
-  Hypothesis ok_trans : forall a b c, ok a -> ok b -> ok c -> veq a b = true -> veq b c = true -> veq a c = true.
+  Hypothesis ok_equiv : equiv_on ok.
+
+  Lemma ok_refl : forall a, ok a -> veq a a = true.
+  Proof. apply ok_equiv. Qed.
+  Lemma ok_sym : forall a b, ok a -> ok b -> veq a b = true -> veq b a = true.
+  Proof. apply ok_equiv. Qed.
+  Lemma ok_trans : forall a b c, ok a -> ok b -> ok c -> veq a b = true -> veq b c = true -> veq a c = true.
+  Proof. apply ok_equiv. Qed.
+
+  Local Hint Resolve ok_refl ok_sym ok_trans : core.
 
   Lemma ok_comm a b : ok a -> ok b -> veq a b = veq b a.
   Proof.
@@ -707,6 +719,8 @@ Section Equiv.
     pose proof (proj1 (Forall_forall _ _) Ha e He) as [Hk Hv].
     pose proof (proj1 (Forall_forall _ _) Hb e' He') as [Hk' Hv'].
     pose proof (proj1 (Forall_forall _ _) Hc e'' He'') as [Hk'' Hv''].
-    exists e''. split; [apply fm_iff; auto; split; [assumption|]|]; eapply ok_trans; eauto.
+    exists e''. split.
+    - apply fm_iff; auto. split; [assumption|]. apply (ok_trans _ (fst e')); auto.
+    - apply (ok_trans _ (snd e')); auto.
   Qed.
 End Equiv.
